@@ -208,7 +208,9 @@ class VhdSuite(Suite):
             out["open"] = {"outcome": "exc", "exc": type(e).__name__, "msg": str(e)[:200]}
             return out
         out["size"] = int(v.size)
-        for kind, a, b in case["reqs"]:
+        for k, (kind, a, b) in enumerate(case["reqs"]):
+            if k % 2 == 1:
+                fh.seek((a * 7 + k * 4099) % max(1, fh.size))      # the handle is the caller's: it may have been used meanwhile
             if kind == "sectors":
                 out["reqs"].append(call(v.disk.read_sectors, a, b))
             elif kind == "raw":
